@@ -716,6 +716,11 @@ func (x *Exec) enterLoop(fr *Frame, lp *loop, st *State) {
 		st.heap[n] = h
 	}
 	x.autoInvariants(fr, lp, st)
+	defer func() {
+		if x.panicFn != nil && ls != nil && ls.panicPoint {
+			x.establishPanicPred(st, hdr.Instrs[0].Pos(), fmt.Sprintf("loop%d", lp.ordinal))
+		}
+	}()
 	if ls != nil {
 		for k, f := range ls.invSSA {
 			x.assumeIn(st, x.evalLoopFn(fr, hdr, ls, ls.invFns[k], f, st))
